@@ -94,7 +94,62 @@ fn op_req(suffix: &[u8], hash: &[u8], peer_id: &[u8], total: u64) -> String {
     }
 }
 
+/// `sreq <suffix> <hash> <peer id> <piece length> <total> <owned bits>`: the announce the real `Session` makes when its last
+/// connection is lost and no candidate is left (`handle_kill_req` → `spawn_tracker`), with some pieces already owned.
+fn op_sreq(suffix: &[u8], hash: &[u8], peer_id: &[u8], plen: u64, total: u64, bits: &str) -> String {
+    let listener = std::net::TcpListener::bind("127.0.0.1:0").expect("bind");
+    let port = listener.local_addr().unwrap().port();
+    let announce = format!("http://127.0.0.1:{}{}", port, String::from_utf8(suffix.to_vec()).expect("utf-8 suffix"));
+    let np = ((total + plen - 1) / plen) as usize;
+    let mut doc = format!("d8:announce1:A4:infod6:lengthi{}e4:name1:N12:piece lengthi{}e6:pieces{}:", total, plen, 20 * np).into_bytes();
+    doc.extend(std::iter::repeat(b'h').take(20 * np));
+    doc.extend_from_slice(b"ee");
+    let m = Metainfo::from_bencode(&doc).expect("sreq metainfo").verif_with(announce, hash20(hash));
+    let mut id = [0u8; 20];
+    id.copy_from_slice(&peer_id[..20]);
+    let server = std::thread::spawn(move || serve_one(&listener, "200 OK", b"d8:intervali1800e5:peerslee"));
+    let bits: Vec<bool> = bits.chars().map(|c| c == '1').collect();
+    let rt = tokio::runtime::Builder::new_current_thread().enable_all().build().unwrap();
+    let got = rt.block_on(async move {
+        let mut s = rdest::Session::new(m, id);
+        for (i, st) in s.verif_statuses().iter_mut().enumerate() {
+            if bits.get(i).copied().unwrap_or(false) {
+                *st = Status::Have;
+            }
+        }
+        let addr = "127.0.0.1:7001".to_string();
+        s.verif_add_peer(addr.clone(), None);
+        let r = tokio::time::timeout(
+            std::time::Duration::from_secs(5),
+            s.verif_handle_peer_cmd(PeerCmd::KillReq { addr, reason: "harness".to_string() }),
+        )
+        .await;
+        if r.is_err() {
+            return "hang";
+        }
+        // let the tracker task make its announce
+        for _ in 0..400 {
+            if !s.verif_tracker_job_held() || s.verif_tracker_job().as_ref().map(|j| j.is_finished()).unwrap_or(true) {
+                break;
+            }
+            tokio::time::sleep(std::time::Duration::from_millis(10)).await;
+        }
+        if let Some(j) = s.verif_tracker_job().take() {
+            j.abort();
+        }
+        "resp"
+    });
+    drop(rt);
+    match server.join() {
+        Ok(Some((target, host))) => format!("{} {} {} {}", got, port, hex(&target), hex(&host)),
+        _ => format!("{} {} noreq -", got, port),
+    }
+}
+
 pub fn run18(args: &[&str]) -> String {
+    if args[0] == "sreq" {
+        return op_sreq(&unhex(args[1]), &unhex(args[2]), &unhex(args[3]), args[4].parse().unwrap(), args[5].parse().unwrap(), args[6]);
+    }
     match args[0] {
         "url" => op_url(&unhex(args[1]), &unhex(args[2])),
         "req" => op_req(&unhex(args[1]), &unhex(args[2]), &unhex(args[3]), args[4].parse().unwrap()),
@@ -158,6 +213,17 @@ pub fn gen18(r: &mut Rng, n: usize, thorough: bool) -> Vec<String> {
             };
             let total = *r.pick(&[0u64, 1, 16384, 700_000_000, u32::MAX as u64 + 1, (1u64 << 62) + 3]);
             out.push(format!("req {} {} {} {}", hex(gen_suffix(r).as_bytes()), hex(&hash), hex(&id), total));
+            if k % (2 * req_every) == 7 {
+                // ... and the announce the Session itself makes later in its life, some pieces already owned (the last, short
+                // one among them or not)
+                let plen = *r.pick(&[32u64, 16384]);
+                let np = 2 + r.below(4);
+                let total2 = plen * np - r.below(plen);
+                // (with everything owned there is nothing to announce for)
+                let missing = r.below(np);
+                let bits: String = (0..np).map(|i| if i != missing && r.coin() { '1' } else { '0' }).collect();
+                out.push(format!("sreq {} {} {} {} {} {}", hex(gen_suffix(r).as_bytes()), hex(&hash), hex(&id), plen, total2, bits));
+            }
         } else {
             let hosts = ["http://127.0.0.1:8000", "http://tracker.example.org", "https://t.example:443", "http://[::1]:6969", "udp://t.example:80"];
             let announce = format!("{}{}", r.pick(&hosts), gen_suffix(r));
